@@ -672,6 +672,41 @@ Section Codec.
     eexists. split; [unfold Model.client; rewrite CL, OW; reflexivity|]. split; [exact R|exact S].
   Qed.
 
+  (* ---- which inputs the client refuses: exactly the configurations Validate or ToClient reject ------ *)
+  Lemma client_refused_iff_l cc r :
+    fclient cc r = CRefused <->
+    (client_validate cc = false \/ (is_compressed cc.(c_type) = true /\ writer_codec cc.(c_type) = None)).
+  Proof.
+    unfold Model.client, Model.client_rt.
+    destruct (client_validate cc); simpl.
+    - destruct (is_compressed (c_type cc)); simpl.
+      + destruct (writer_codec (c_type cc)) as [c|].
+        * unfold round_trip. destruct (negb _); [split; [discriminate|intros [H|[_ H]]; discriminate]|].
+          destruct (compress enc c _ r); split; try discriminate; intros [H|[_ H]]; discriminate.
+        * split; [intros _; right; split; reflexivity|reflexivity].
+      + split; [discriminate|intros [H|[H _]]; discriminate].
+    - split; [intros _; now left|reflexivity].
+  Qed.
+
+  (* a type a configuration file can name, with validated parameters, is never refused *)
+  Lemma known_validated_not_refused_l cc r :
+    type_known cc.(c_type) = true -> client_validate cc = true -> fclient cc r <> CRefused.
+  Proof.
+    intros Hk Hv H. apply client_refused_iff_l in H. destruct H as [H|[Hc Hw]]; [congruence|].
+    destruct (known_type_has_writer _ Hk Hc) as [c Hc']. congruence.
+  Qed.
+
+  (* ---- histories: any sequence of requests through one client and one server ----------------------- *)
+  (* (the middleware keeps no state between requests: each request of a history is answered as if alone;
+     pooled writers are the only state in the code and are validated to behave like fresh ones) *)
+  Definition run_history (cc : ccfg) (sc : scfg) (rs : list creq) : list (option sout) := map (fe2e cc sc) rs.
+
+  Lemma limit_holds_history_l cc sc rs ce cl s :
+    In (Some (Handled ce cl s)) (run_history cc sc rs) -> (Z.of_nat (List.length (fst s)) <= eff_max sc)%Z.
+  Proof.
+    unfold run_history. rewrite in_map_iff. intros [r [H _]]. exact (limit_holds_e2e_full_l cc sc r ce cl s H).
+  Qed.
+
   Lemma roundtrip_e2e_full_l cc sc r c :
     client_validate cc = true -> is_compressed cc.(c_type) = true -> writer_codec cc.(c_type) = Some c ->
     hdr_compatible cc -> r.(q_ce) = [] -> r.(q_raw) = [] -> body_ok r = true ->
@@ -685,6 +720,20 @@ Section Codec.
     intros Hv Hc Hw Hh Hce Hr Hok Hin Hcu b wire Hb Hwire.
     destruct (roundtrip_full_l cc sc r c Hv Hc Hw Hh Hce Hr Hok Hin Hcu Hb Hwire) as [w [C [_ S]]].
     unfold Model.e2e. rewrite C. now rewrite S.
+  Qed.
+
+  (* every request of an unbounded history that satisfies the round-trip hypotheses is read exactly *)
+  Lemma roundtrip_history_l cc sc c rs :
+    client_validate cc = true -> is_compressed cc.(c_type) = true -> writer_codec cc.(c_type) = Some c ->
+    hdr_compatible cc -> In cc.(c_type) (eff_algs sc) -> ~ In cc.(c_type) (map fst sc.(s_custom)) ->
+    Forall (fun r => r.(q_ce) = [] /\ r.(q_raw) = [] /\ body_ok r = true /\
+                     (Z.of_nat (List.length (body_bytes r.(q_body))) <= eff_max sc)%Z /\
+                     (Z.of_nat (List.length (enc c (writer_level c (effective_level cc.(c_level))) (body_bytes r.(q_body)))) <= eff_max sc)%Z) rs ->
+    run_history cc sc rs = map (fun r => Some (Handled [] (-1) (body_bytes r.(q_body), E_EOF))) rs.
+  Proof.
+    intros Hv Hc Hw Hh Hin Hcu HF. unfold run_history. induction HF as [|r rs [H1 [H2 [H3 [H4 H5]]]] _ IH]; [reflexivity|].
+    simpl. rewrite IH. f_equal.
+    exact (roundtrip_e2e_full_l cc sc r c Hv Hc Hw Hh H1 H2 H3 Hin Hcu H4 H5).
   Qed.
 
   Lemma roundtrip_default_full_l cc mx r :
